@@ -156,6 +156,7 @@ func init() {
 			{Name: "flags", Run: c03Flags},
 			{Name: "long", TShards: 4, Run: c03Long},
 			{Name: "sizes", TShards: 6, Run: c03Sizes},
+			{Name: "prefixes", Run: prefixUnit("sam", false, 0)},
 		},
 	})
 }
